@@ -25,37 +25,107 @@ from .model import AnalysisError, FuncInfo, body_walk, dotted, unparse
 FIXTURE = os.path.join(os.path.dirname(os.path.dirname(os.path.abspath(__file__))), "fixtures", "ref_guards.json")
 
 
-def _inline(test, defs: Defs, depth=2, _seen=None):
-    """Copy of ``test`` with locals that have exactly one definition replaced by it."""
+_BOOL_FUNCS = {"isinstance", "hasattr", "callable", "any", "all", "issubclass", "bool", "has_keyword"}
+_BOOL_PREFIXES = ("is_", "has_", "_is_", "_has_", "supports_", "_supports_", "can_", "_can_", "is", "has")
+
+
+def _boolean_like(v):
+    if isinstance(v, (ast.Compare, ast.BoolOp)):
+        return True
+    if isinstance(v, ast.UnaryOp) and isinstance(v.op, ast.Not):
+        return True
+    if isinstance(v, ast.Call):
+        tail = (dotted(v.func) or "").rsplit(".", 1)[-1]
+        return tail in _BOOL_FUNCS or tail.startswith(_BOOL_PREFIXES)
+    return False
+
+
+def _inline(test, defs: Defs, depth=6, _seen=None, module=None):
+    """Copy of ``test`` with locals that have exactly one definition replaced by it, and - when ``module`` is
+    given - calls of same-module private single-``return <expr>`` helpers replaced by that expression (formal
+    parameters substituted by the actual arguments)."""
     _seen = _seen or set()
+    import copy
 
     class T(ast.NodeTransformer):
         def visit_Name(self, n):
             if isinstance(n.ctx, ast.Load) and n.id not in defs.params and n.id not in _seen:
-                vs = defs.defs.get(n.id, [])
-                if len(vs) == 1 and depth > 0 and not isinstance(vs[0], (ast.Lambda,)):
-                    inner = _inline(vs[0], defs, depth - 1, _seen | {n.id})
-                    return inner
+                # a local bound exactly once by a plain assignment stands for its value: look through it (so that
+                # splitting an expression with an intermediate variable, or merging intermediates, changes nothing, and
+                # changing what a tested local is computed from does).  Loop / with / comprehension targets, unpacked,
+                # augmented or multiply-bound locals and parameters stay opaque.
+                v = defs.plain_single_def(n.id)
+                if v is not None and depth > 0 and not isinstance(v, ast.Lambda):
+                    return _inline(v, defs, depth - 1, _seen | {n.id}, module)
             return n
 
-    import copy
+        def visit_Call(self, n):
+            self.generic_visit(n)
+            if module is not None and isinstance(n.func, ast.Name) and n.func.id.startswith("_") and depth > 0 and not n.keywords:
+                g = module.functions.get(n.func.id)
+                if g is not None and g.cls is None and g.parent is None:
+                    body = [b for b in g.node.body if not (isinstance(b, ast.Expr) and isinstance(b.value, ast.Constant))]
+                    if len(body) == 1 and isinstance(body[0], ast.Return) and body[0].value is not None and len(n.args) == len(g.node.args.args) and not any(isinstance(a, ast.Starred) for a in n.args):
+                        sub = dict(zip([a.arg for a in g.node.args.args], n.args))
+
+                        class S(ast.NodeTransformer):
+                            def visit_Name(self, m):
+                                return copy.deepcopy(sub[m.id]) if isinstance(m.ctx, ast.Load) and m.id in sub else m
+
+                        return S().visit(copy.deepcopy(body[0].value))
+            return n
 
     return T().visit(copy.deepcopy(test))
 
 
 _NEG_CMP = {ast.Eq: ast.NotEq, ast.NotEq: ast.Eq, ast.In: ast.NotIn, ast.NotIn: ast.In, ast.Is: ast.IsNot, ast.IsNot: ast.Is}
+_QUANT = {"any": "all", "all": "any"}
+
+
+def _quant(test):
+    """('any'|'all', generator) when test is ``any(<genexp/listcomp>)`` / ``all(...)``."""
+    if isinstance(test, ast.Call) and isinstance(test.func, ast.Name) and test.func.id in _QUANT and len(test.args) == 1 and not test.keywords and isinstance(test.args[0], (ast.GeneratorExp, ast.ListComp)):
+        return test.func.id, test.args[0]
+    return None
+
+
+def _mk_quant(name, gen, elt):
+    g = ast.GeneratorExp(elt=elt, generators=gen.generators)
+    return ast.Call(func=ast.Name(id=name, ctx=ast.Load()), args=[g], keywords=[])
+
+
+def _flat(op, values):
+    out = []
+    for v in values:
+        if isinstance(v, ast.BoolOp) and type(v.op) is type(op):
+            out.extend(v.values)
+        else:
+            out.append(v)
+    return ast.BoolOp(op=op, values=out) if len(out) > 1 else out[0]
 
 
 def _nnf(test, positive=True):
-    """Negation normal form of ``test`` (negated when ``positive`` is False): negations are pushed through
-    and/or (De Morgan), double negations vanish, and ==/!=, in/not in, is/is not absorb a negation.  Order
-    comparisons are NOT flipped (``not a < b`` differs from ``a >= b`` for NaN)."""
+    """Normal form of ``test`` (negated when ``positive`` is False): negations are pushed through and/or
+    (De Morgan) and through any()/all() over a generator (``not any(P)`` = ``all(not P)``), double negations vanish,
+    ==/!=, in/not in, is/is not absorb a negation, nested and/or of the same kind are flattened, and a quantifier
+    distributes over its element (``all(P and Q)`` = ``all(P) and all(Q)``, ``any(P or Q)`` = ``any(P) or any(Q)``).
+    Order comparisons are NOT flipped (``not a < b`` differs from ``a >= b`` for NaN)."""
     if isinstance(test, ast.UnaryOp) and isinstance(test.op, ast.Not):
         return _nnf(test.operand, not positive)
     if isinstance(test, ast.BoolOp):
         vals = [_nnf(v, positive) for v in test.values]
         op = test.op if positive else (ast.Or() if isinstance(test.op, ast.And) else ast.And())
-        return ast.BoolOp(op=op, values=vals)
+        return _flat(op, vals)
+    q = _quant(test)
+    if q is not None:
+        name, gen = q
+        if not positive:
+            name = _QUANT[name]
+        elt = _nnf(gen.elt, positive)
+        # distribute: all over and, any over or
+        if isinstance(elt, ast.BoolOp) and ((name == "all" and isinstance(elt.op, ast.And)) or (name == "any" and isinstance(elt.op, ast.Or))):
+            return _flat(elt.op, [_mk_quant(name, gen, v) for v in elt.values])
+        return _mk_quant(name, gen, elt)
     if positive:
         return test
     if isinstance(test, ast.Compare) and len(test.ops) == 1 and type(test.ops[0]) in _NEG_CMP:
@@ -70,6 +140,15 @@ def _conjuncts(test):
         out = []
         for v in test.values:
             out.extend(_conjuncts(v))
+        return out
+    return [test]
+
+
+def _disjuncts(test):
+    if isinstance(test, ast.BoolOp) and isinstance(test.op, ast.Or):
+        out = []
+        for v in test.values:
+            out.extend(_disjuncts(v))
         return out
     return [test]
 
@@ -125,12 +204,66 @@ def stmt_kind(s):
     return None
 
 
-def guard_instances(f: FuncInfo, kinds=("raise", "return None", "return", "continue"), extra=None):
-    """[(stmt, exit kind, fingerprint, human text)] for the exits of ``f`` (and, with ``extra``,
-    for other statements: ``extra(stmt) -> bool``)."""
+def _fp(node, local_names):
+    ast.fix_missing_locations(node)
+    canon = ";".join(f"{k}={v}" for k, v in sorted(_features(node, local_names).items()))
+    return hashlib.sha256(canon.encode()).hexdigest()[:12]
+
+
+def _item(conj, local_names):
+    """A conjunct as a comparable item: its fingerprint, and for a disjunction the fingerprints of its disjuncts
+    (each disjunct as the sorted list of its own conjunct fingerprints)."""
+    it = {"fp": _fp(conj, local_names)}
+    ds = _disjuncts(conj)
+    if len(ds) > 1:
+        it["or"] = sorted(sorted(_fp(c, local_names) for c in _conjuncts(d)) for d in ds)
+    return it
+
+
+class Guard:
+    """One exit (or tracked statement) of a function with its controlling condition, split into the conjuncts of the
+    tests that ENCLOSE it (``own``) and those contributed by earlier early-exits (``ctx``)."""
+
+    def __init__(self, stmt, exit_kind, own, ctx, text, via=None):
+        self.stmt, self.exit, self.own, self.ctx, self.text, self.via = stmt, exit_kind, own, ctx, text, via
+
+    @property
+    def own_fps(self):
+        return sorted(i["fp"] for i in self.own)
+
+    @property
+    def all_fps(self):
+        return sorted(i["fp"] for i in self.own + self.ctx)
+
+    def to_json(self):
+        return {"exit": self.exit, "own": self.own, "ctx": self.ctx, "text": self.text}
+
+
+def _chain_items(cfg, s, defs, local_names, module, rewrite=None):
+    """``rewrite``: optional AST -> AST applied to every (already inlined) test before normalisation - used to express a
+    helper's conditions in terms of its caller (formal parameters replaced by the actual arguments, then the caller's
+    locals looked through)."""
+    own, ctx, texts = [], [], []
+    for t, pol, kind in cfg.guards(s, with_kind=True):
+        it = _inline(t, defs, module=module)
+        if rewrite is not None:
+            it = rewrite(it)
+        for lit in _conjuncts(_nnf(it, pol)):
+            (own if kind == "enclosing" else ctx).append(_item(lit, local_names))
+        for lit in _conjuncts(_nnf(t, pol)):
+            ast.fix_missing_locations(lit)
+            texts.append(unparse(lit))
+    return own, ctx, texts
+
+
+def guard_instances(f: FuncInfo, kinds=("raise", "return None", "return", "continue"), extra=None, follow_helpers=True):
+    """[Guard] for the exits of ``f`` (and, with ``extra``, for other statements: ``extra(stmt) -> bool``).  With
+    ``follow_helpers`` the ``raise`` exits of same-module private functions that ``f`` calls count as exits of ``f``,
+    under the call site's condition plus their own (a refusal moved into a helper is still f's refusal)."""
     cfg = CFG(f.node)
     defs = Defs(f.node)
     local_names = set(defs.defs) | set(defs.params)
+    module = f.module
     out = []
     for s in cfg.stmts():
         if isinstance(s, (ast.Raise, ast.Return, ast.Continue)):
@@ -141,23 +274,86 @@ def guard_instances(f: FuncInfo, kinds=("raise", "return None", "return", "conti
             ek = stmt_kind(s)
         else:
             continue
-        chain = cfg.guards(s)
-        total = Counter()
-        texts = []
-        for t, pol in chain:
-            # the chain is a conjunction; normalise every element to negation normal form and split it into its
-            # conjuncts, so that nested-if vs `and`, early-return vs else-branch, De Morgan and `not a == b` vs
-            # `a != b` spellings of the same condition give the same multiset
-            for lit in _conjuncts(_nnf(_inline(t, defs), pol)):
-                ast.fix_missing_locations(lit)
-                total.update(_features(lit, local_names))
-                total["<conjunct>"] += 1
-            for lit in _conjuncts(_nnf(t, pol)):
-                texts.append(unparse(lit))
-        canon = ";".join(f"{k}={v}" for k, v in sorted(total.items()))
-        fp = hashlib.sha256(canon.encode()).hexdigest()[:16]
-        out.append((s, ek, fp, " AND ".join(f"({x})" for x in sorted(texts)) if texts else "<unconditional>"))
+        own, ctx, texts = _chain_items(cfg, s, defs, local_names, module)
+        out.append(Guard(s, ek, own, ctx, " AND ".join(f"({x})" for x in sorted(texts)) if texts else "<unconditional>"))
+    if follow_helpers and any(k.startswith("raise") for k in kinds):
+        seen = {f.fq}
+        for s in cfg.stmts():
+            if isinstance(s, (ast.If, ast.While, ast.For, ast.Try, ast.With, ast.FunctionDef, ast.ClassDef)):
+                continue
+            for c in ast.walk(s):
+                if not (isinstance(c, ast.Call) and isinstance(c.func, (ast.Name, ast.Attribute))):
+                    continue
+                g = None
+                if isinstance(c.func, ast.Name) and c.func.id.startswith("_"):
+                    g = module.functions.get(c.func.id)
+                elif isinstance(c.func, ast.Attribute) and isinstance(c.func.value, ast.Name) and c.func.value.id == "self" and c.func.attr.startswith("_") and f.cls is not None:
+                    g = f.cls.methods.get(c.func.attr)
+                if g is None or g.fq in seen or g.kind in ("property", "cached_property"):
+                    continue
+                seen.add(g.fq)
+                site_own, site_ctx, site_texts = _chain_items(cfg, s, defs, local_names, module)
+                # express the helper's conditions in the caller's terms: formal parameters -> actual arguments, then the
+                # caller's single-assignment locals are looked through exactly as for the caller's own conditions
+                formals = [a.arg for a in g.node.args.posonlyargs + g.node.args.args]
+                if formals and formals[0] in ("self", "cls") and isinstance(c.func, ast.Attribute):
+                    formals = formals[1:]
+                sub = {}
+                if not any(isinstance(a, ast.Starred) for a in c.args):
+                    sub = dict(zip(formals, c.args))
+                for k in c.keywords:
+                    if k.arg in formals:
+                        sub[k.arg] = k.value
+                import copy as _copy
+
+                def rewrite(node, sub=sub):
+                    class S(ast.NodeTransformer):
+                        def visit_Name(self, m):
+                            return _copy.deepcopy(sub[m.id]) if isinstance(m.ctx, ast.Load) and m.id in sub else m
+
+                    return _inline(S().visit(node), defs, module=module)
+
+                gcfg, gdefs = CFG(g.node), Defs(g.node)
+                g_locals = local_names | set(gdefs.defs) | set(gdefs.params)
+                for hs in gcfg.stmts():
+                    if not isinstance(hs, ast.Raise):
+                        continue
+                    h_own, h_ctx, h_texts = _chain_items(gcfg, hs, gdefs, g_locals, module, rewrite=rewrite)
+                    text = " AND ".join(f"({t})" for t in sorted(site_texts + h_texts)) or "<unconditional>"
+                    out.append(Guard(s, exit_kind(hs), site_own + h_own, site_ctx + h_ctx, text, via=g.qualname))
     return out
+
+
+def _multi(xs):
+    return sorted(xs)
+
+
+def matches(ref: dict, cur: Guard, others=()):
+    """Is the reference guard ``ref`` (a to_json dict) still enforced by the current guard ``cur``?
+    1. same conjuncts overall (own + context);  2. same own conjuncts (the context only records that earlier guards
+    did not fire);  3. ``cur`` is a disjunction one of whose disjuncts is ``ref`` (two refusals merged with ``or``)."""
+    if ref["exit"] != cur.exit:
+        return False
+    r_own = _multi(i["fp"] for i in ref["own"])
+    r_all = _multi(i["fp"] for i in ref["own"] + ref.get("ctx", []))
+    if r_all == cur.all_fps or r_own == cur.own_fps:
+        return True
+    # nested-if <-> early-exit forms move conjuncts between own and context: compare own against all and vice versa
+    if r_all == cur.own_fps or r_own == cur.all_fps:
+        return True
+    if len(cur.own) == 1 and "or" in cur.own[0]:
+        if any(sorted(d) == r_own for d in cur.own[0]["or"]) or any(sorted(d) == r_all for d in cur.own[0]["or"]):
+            return True
+    return False
+
+
+def split_matches(ref: dict, curs):
+    """``ref`` is one disjunction and the current code spells it as several exits, one per disjunct."""
+    if len(ref["own"]) == 1 and "or" in ref["own"][0]:
+        need = [sorted(d) for d in ref["own"][0]["or"]]
+        have = [g.own_fps for g in curs if g.exit == ref["exit"]]
+        return all(d in have for d in need)
+    return False
 
 
 def load_reference(prop):
@@ -193,18 +389,18 @@ def check_reference(ctx, rr, prop, selector=None):
         if f.fq not in cache:
             cache[f.fq] = guard_instances(f, extra=lambda s: True)
         insts = cache[f.fq]
-        same_exit = [i for i in insts if i[1] == e["exit"]]
-        hit = [i for i in same_exit if i[2] == e["fp"]]
+        same_exit = [g for g in insts if g.exit == e["exit"]]
+        hit = [g for g in same_exit if matches(e, g)] or (same_exit if split_matches(e, same_exit) else [])
         c = f"{f.construct}::{e['exit']} when {e['text'][:140]}"
-        rr.inst(c, why=e.get("why", ""), present=bool(hit))
+        rr.inst(c, why=e.get("why", ""), present=bool(hit), **({"via_helper": hit[0].via} if hit and hit[0].via else {}))
         if hit:
             continue
-        ref_fps = {x["fp"] for x in ref if x["func"] == e["func"] and x["exit"] == e["exit"]}
-        unmatched = [i for i in same_exit if i[2] not in ref_fps]
-        now = "; ".join(sorted({i[3][:160] for i in (unmatched or same_exit)})[:3]) or "no such statement left"
+        others = [x for x in ref if x["func"] == e["func"] and x["exit"] == e["exit"]]
+        unmatched = [g for g in same_exit if not any(matches(x, g) for x in others)]
+        now = "; ".join(sorted({g.text[:160] for g in (unmatched or same_exit)})[:3]) or "no such statement left"
         ctx.finding(
             rr, c,
             f"reference guard changed or removed in {f.qualname}: expected `{e['exit']}` under {e['text']!r}; now: {now}",
-            func=f, node=(unmatched[0][0] if unmatched else (same_exit[0][0] if same_exit else f.node)),
+            func=f, node=(unmatched[0].stmt if unmatched else (same_exit[0].stmt if same_exit else f.node)),
         )
     return rr
